@@ -145,3 +145,20 @@ Definition roundtrips (b : Z) : bool :=
   end.
 Example C16_std_roundtrip_palette : forallb roundtrips palette_bits = true.
 Proof. vm_compute. reflexivity. Qed.
+
+(* ... and on 120 pseudo-random finite doubles (a 64-bit linear congruential sequence
+   of bit patterns, the exponent field forced below 0x7ff), both OPEN statements,
+   checked by the kernel on every run *)
+Definition lcg (b : Z) : Z := (b * 6364136223846793005 + 1442695040888963407) mod 2 ^ 64.
+Definition finite_bits (b : Z) : Z :=
+  if (b / 2 ^ 52) mod 2048 =? 2047 then b - 2 ^ 62 else b.
+Fixpoint lcg_seq (n : nat) (b : Z) : list Z :=
+  match n with O => [] | S k => finite_bits b :: lcg_seq k (lcg b) end.
+Definition has_point (b : Z) : bool :=
+  let x := f64_of_bits b in
+  if negb (f64_ltb F_1E10 x) && negb (float_is_integer x) then existsb (N.eqb 46) (fmt_display x) else true.
+Example C16_std_roundtrip_sample :
+  forallb (fun b => roundtrips b && has_point b) (lcg_seq 120 0x9e3779b97f4a7c15) = true.
+Proof. vm_compute. reflexivity. Qed.
+Example C16_display_point_palette : forallb has_point palette_bits = true.
+Proof. vm_compute. reflexivity. Qed.
